@@ -31,6 +31,8 @@ enum Fault {
     NeighborOnBoundary { cell: u64, slot: usize, other: u64 },
     DuplicateCell { cell: u64 },
     MissingCell { cell: u64 },
+    /// cell removed with `Tds::remove_cells_by_keys` (neighbour back-references and incident cells repaired): only Level 3 can object
+    MissingCellClean { cell: u64, interior: bool },
     RepeatedVertex { cell: u64, from: usize, to: usize },
     SwapVerticesOnly { cell: u64, a: usize, b: usize },
     SwapVerticesAndNeighbors { cell: u64, a: usize, b: usize },
@@ -54,6 +56,8 @@ impl Fault {
             Fault::NeighborOnBoundary { .. } => "neighbour-across-non-shared-facet",
             Fault::DuplicateCell { .. } => "duplicate-cell",
             Fault::MissingCell { .. } => "missing-cell",
+            Fault::MissingCellClean { interior: true, .. } => "interior-cavity",
+            Fault::MissingCellClean { interior: false, .. } => "cleanly-removed-boundary-cell",
             Fault::RepeatedVertex { .. } => "repeated-vertex",
             Fault::SwapVerticesOnly { .. } => "swapped-vertex-order",
             Fault::SwapVerticesAndNeighbors { .. } => "inverted-cell-consistent-swap",
@@ -102,6 +106,7 @@ fn apply<const D: usize>(tds: &mut Tds<f64, U, V, D>, f: &Fault, s: &Snap) -> bo
             tds.verif_insert_cell_raw(c.verts.iter().map(|k| vkey(*k)).collect()).is_some()
         }
         Fault::MissingCell { cell } => tds.remove_cell_by_key(ckey(*cell)).is_some(),
+        Fault::MissingCellClean { cell, .. } => tds.remove_cells_by_keys(&[ckey(*cell)]) == 1,
         Fault::RepeatedVertex { cell, from, to } => {
             let Some(c) = s.cells.iter().find(|c| c.key == *cell) else { return false };
             let v = vkey(c.verts[*from]);
@@ -217,6 +222,10 @@ fn enumerate_faults(s: &Snap, d: usize) -> Vec<Fault> {
         }
         out.push(Fault::DuplicateCell { cell: c.key });
         out.push(Fault::MissingCell { cell: c.key });
+        if s.cells.len() > 1 {
+            let interior = c.nbrs.as_ref().is_some_and(|n| n.iter().all(Option::is_some));
+            out.push(Fault::MissingCellClean { cell: c.key, interior });
+        }
     }
     for v in &s.verts {
         for axis in 0..d {
@@ -319,8 +328,9 @@ impl C05 {
         }
         ctx.stats.abstained += (r3.abstained) as u64;
         let undecided_geo = r1.ok() && r2.ok() && r3.geo_positive.is_none() && r3.ok();
+        let first_kind: &'static str = [&r1, &r2, &r3, &r3c].iter().find_map(|r| r.first().map(|v| v.kind)).unwrap_or("none");
         let mut fail = |ctx: &mut StepCtx<'_, K, D>, clause: &str, detail: String| {
-            push_violation(ctx.violations, violation("C05", clause, ctx.step, format!("fault={label}|{clause}|tg={:?}", strength), detail));
+            push_violation(ctx.violations, violation("C05", clause, ctx.step, format!("fault={label}|{clause}|tg={:?}|d={D}|kind={first_kind}", strength), detail));
         };
         let owner = if !r1.ok() {
             1
@@ -435,8 +445,20 @@ impl<K: SimKernel<D>, const D: usize> Monitor<K, D> for C05 {
         if post.cells.len() <= 12 && faults.len() <= cap {
             ctx.stats.bump("c05.complexes_enumerated_exhaustively");
         } else {
+            // stratified sample: shuffle, then take the classes round-robin so that a rare class
+            // (one interior cell among thousands of slot faults) is never crowded out
             rng.shuffle(&mut faults);
-            faults.truncate(cap);
+            let mut rank: std::collections::BTreeMap<&'static str, usize> = std::collections::BTreeMap::new();
+            let mut keyed: Vec<(usize, Fault)> = faults
+                .into_iter()
+                .map(|f| {
+                    let r = rank.entry(f.class()).or_insert(0);
+                    *r += 1;
+                    (*r, f)
+                })
+                .collect();
+            keyed.sort_by_key(|(r, _)| *r);
+            faults = keyed.into_iter().map(|(_, f)| f).take(cap).collect();
             ctx.stats.bump("c05.complexes_sampled");
         }
         for f in &faults {
